@@ -17,6 +17,10 @@ Two correspondences, both evaluated inside Coq, plus runtime legs:
   Observed: no frames / exactly the thread's own f_back walk recorded at park number n
   (outermost first) / anything else.  Blocked threads additionally: exact contexts against the
   logged truth of the managers the thread entered.
+* kind "search" (M_ThreadLife, unwrap_outer): extract(StackSlice(outer=frame)) / extract(running generator) called from a
+  thread that is older or NEWER than the thread on whose stack the frame lives, with other threads listed before and after
+  the caller in sys._current_frames(); observed: the frames (as positions in each thread's own recorded f_back walk) and
+  whether the "can't continue traceback" error was reported; oracle: exactly the target thread's frames from `outer` inward.
 * extra legs: extract(thread) under a 10-fold retry schedule (RuntimeError -> warning, no raise,
   only own frames); randomized stress with sys.setswitchinterval(1e-6) in a child process without
   the hooks (exit status = crash oracle).
@@ -40,6 +44,8 @@ KINDS = {
                  type="scase", mismatch="mismatches", nontrivial="count_nontrivial"),
     "life": dict(imports="From SS Require Import Base M_ThreadLife.", type="lcase",
                  mismatch="lmismatches", nontrivial="lcount_nontrivial"),
+    "search": dict(imports="From SS Require Import Base M_ThreadLife.", type="ocase",
+                   mismatch="omismatches", nontrivial="ocount_nontrivial"),
 }
 RULE = ("snap: generated target functions with 4-6 park sites (0-2 enclosing with blocks, 0-3 pending call operands, "
         "Python-level or C-level park; plus running frames whose f_lasti is the first (UNPACK_SEQUENCE of `with .. as (x,)`) "
@@ -48,7 +54,11 @@ RULE = ("snap: generated target functions with 4-6 park sites (0-2 enclosing wit
         "schedules with up to 4 moves over attempts 0-3, plus 9- and 10-fold retry schedules; "
         "life: all valid event sequences (start, step, finish, other-start, other-finish) up to length 3 (quick) / 4 "
         "(thorough) x all splits over the three windows of unwrap_thread, plus blocked threads at call depth 1-4(6) "
-        "x with-nesting 0-2 per frame.  distinct = distinct descriptors; non-trivial (snap) = the target moved, a "
+        "x with-nesting 0-2 per frame; search: 2-4 (thorough 2-6) worker threads created in a fixed order, each parked in a call "
+        "chain (one level optionally a running generator), every (target thread, outer level in {outermost, middle, innermost}, "
+        "caller in {harness thread (oldest), each worker incl. the target itself}) x {StackSlice(outer=frame), extract(running "
+        "generator)} plus a frame that runs nowhere, plus random configurations; the observed order of sys._current_frames() is "
+        "given to the model.  distinct = distinct descriptors; non-trivial (snap) = the target moved, a "
         "retry happened or a non-empty stack was read; (life) = an event inside a window or a slice returned")
 CONFIG = dict(
     coq=["C07"], level="proof",
@@ -976,30 +986,256 @@ def life_inputs(tier, rng):
         yield mk(d, [rng.randrange(3) for _ in range(d)], seq[:i], seq[i:j], seq[j:])
 
 
+# ======================================================================= search (other threads' stacks)
+class SearchRun:
+    """n worker threads created in order 0..n-1 (the harness thread is older than all of them); each runs a chain
+    of nested calls -- one level optionally a running generator -- records its own f_back walk and parks in a
+    C-level queue.get.  One of them (or the harness thread) is then asked to extract a StackSlice / generator
+    whose outer frame lives on another thread's stack."""
+
+    def __init__(self, depths, gen_level):
+        import queue
+        import threading
+        self.n = len(depths)
+        self.depths = depths
+        self.gen_level = gen_level          # {thread: level that is a generator}
+        self.cmd = [queue.SimpleQueue() for _ in depths]
+        self.done = queue.SimpleQueue()
+        self.walk = [None] * self.n         # frames, innermost first, as recorded by the thread itself
+        self.level_frame = [dict() for _ in depths]
+        self.gens = [dict() for _ in depths]
+        self.result = None
+        self.threads = []
+        for t in range(self.n):
+            th = threading.Thread(target=self.call, args=(t, 0), daemon=True)
+            self.threads.append(th)
+            th.start()
+            self.done.get()                 # parked before the next one is created: creation order is fixed
+
+    def call(self, t, k):
+        if self.gen_level.get(t) == k:
+            g = self.glevel(t, k)
+            self.gens[t][k] = g
+            next(g)
+        else:
+            self.level(t, k)
+
+    def level(self, t, k):
+        self.level_frame[t][k] = sys._getframe()
+        if k + 1 < self.depths[t]:
+            self.call(t, k + 1)
+        else:
+            self.park(t)
+
+    def glevel(self, t, k):
+        self.level_frame[t][k] = sys._getframe()
+        if k + 1 < self.depths[t]:
+            self.call(t, k + 1)
+        else:
+            self.park(t)
+        yield 1
+
+    def park(self, t):
+        f = sys._getframe()
+        w = []
+        while f is not None:
+            w.append(f)
+            f = f.f_back
+        self.walk[t] = w
+        self.done.put(t)
+        while True:
+            job = self.cmd[t].get()
+            if job is None:
+                return
+            self.result = self.extract_here(job)
+            self.done.put(t)
+
+    def extract_here(self, job):
+        import threading
+        import stackscope
+        order = list(sys._current_frames())
+        self.extra_frame = sys._getframe()
+        try:
+            st = stackscope.extract(job, with_contexts=False)
+            return {"order": order, "me": threading.get_ident(), "stack": st}
+        except BaseException as ex:  # noqa
+            return {"order": order, "me": threading.get_ident(), "raised": repr(ex)}
+
+    def close(self):
+        for t in range(self.n):
+            self.cmd[t].put(None)
+        for th in self.threads:
+            th.join(10)
+
+
+def run_search(desc):
+    import threading
+    import stackscope
+    run = SearchRun(desc["depths"], {int(k): v for k, v in desc["gens"].items()})
+    try:
+        t, od = desc["target"], desc["outer"]
+        if t is None:
+            # a frame that is on no stack at all: the frame of a call that has returned
+            def gone():
+                return sys._getframe()
+            outer = gone()
+            job = stackscope.StackSlice(outer=outer)
+        elif desc["via"] == "gen":
+            g = run.gens[t][od]
+            outer = g.gi_frame
+            job = g
+        else:
+            outer = run.level_frame[t][od]
+            job = stackscope.StackSlice(outer=outer)
+        c = desc["caller"]
+        if c is None:
+            main_walk = []
+            res = run.extract_here(job)
+            f = sys._getframe()
+            while f is not None:
+                main_walk.append(f)
+                f = f.f_back
+        else:
+            run.cmd[c].put(job)
+            run.done.get()
+            res = run.result
+            main_walk = None
+        if "raised" in res:
+            return {"res": "raised", "exc": res["raised"]}
+        # frame ids: thread k (harness thread = n), position from the outermost frame
+        B = 20
+        ids = {}
+        stacks = {}
+        if c is not None:
+            run.walk[c] = [run.extra_frame] + run.walk[c]     # the caller extracts from one frame further in
+        for k in range(run.n):
+            w = run.walk[k]
+            assert len(w) < B
+            for j, fr in enumerate(reversed(w)):
+                ids[id(fr)] = (k + 1) * B + j
+            stacks[run.threads[k].ident] = [(k + 1) * B + j for j in range(len(w) - 1, -1, -1)]
+        main_ident = threading.main_thread().ident if threading.current_thread() is threading.main_thread() else threading.get_ident()
+        hid = (run.n + 1) * B
+        stacks[threading.get_ident()] = [hid]
+        if main_walk is not None:
+            for j, fr in enumerate(reversed(main_walk)):
+                ids.setdefault(id(fr), hid + 1 + j)
+        ids.setdefault(id(outer), 199)
+        st = res["stack"]
+        frames = [ids.get(id(f.pyframe), 198) for f in st.frames]
+        order = []
+        for ident in res["order"]:
+            order.append([("H" if ident == threading.get_ident() else run.threads.index(next(th for th in run.threads if th.ident == ident)))
+                          if (ident == threading.get_ident() or any(th.ident == ident for th in run.threads)) else "?",
+                          stacks.get(ident, [197])])
+        me = "H" if c is None else c
+        if c is None:
+            own = [hid]     # the harness thread's own stack never holds the outer frame
+        else:
+            own = stacks[run.threads[c].ident]
+        want = None
+        if t is not None:
+            w = run.walk[t]
+            pos = next(j for j, fr in enumerate(reversed(w)) if fr is outer)
+            want = [(t + 1) * B + j for j in range(pos, len(w))]
+        return {"res": "ok", "frames": frames, "error": st.error is not None, "order": order, "me": me, "own": own,
+                "outer": ids[id(outer)], "want": want,
+                "errtext": None if st.error is None else repr(st.error)[:120]}
+    finally:
+        run.close()
+
+
+def coq_search(desc, obs):
+    if obs["res"] != "ok":
+        return None
+    n = len(desc["depths"])
+    tid = lambda x: n + 1 if x == "H" else (n + 2 if x == "?" else x + 1)
+    ths = clist("(%d, %s)" % (tid(k), clist(str(f) for f in st)) for k, st in obs["order"])
+    return "(%d, %d, %s, %s, (%s, %s))" % (tid(obs["me"]), obs["outer"], clist(str(f) for f in obs["own"]), ths,
+                                           clist(str(f) for f in obs["frames"]), cbool(obs["error"]))
+
+
+def oracle_search(desc, obs):
+    if obs["res"] == "raised":
+        return "extract() raised: " + obs["exc"]
+    if desc["target"] is None:
+        if not obs["error"] or obs["frames"] != [obs["outer"]]:
+            return "a frame that is running nowhere must yield that frame plus the 'can't continue traceback' error"
+        return None
+    if obs["error"]:
+        return ("the outer frame is running on thread %r but extract() reported %s (caller %r, order of "
+                "sys._current_frames(): %r)" % (desc["target"], obs["errtext"], obs["me"], [k for k, _ in obs["order"]]))
+    if obs["frames"] != obs["want"]:
+        return "frames are not exactly the target thread's frames from `outer` inward: %r, expected %r" % (obs["frames"], obs["want"])
+    return None
+
+
+def search_inputs(tier, rng):
+    def mk(depths, gens, target, outer, caller, via):
+        return {"_kind": "search", "depths": depths, "gens": {str(k): v for k, v in gens.items()}, "target": target,
+                "outer": outer, "caller": caller, "via": via}
+    ns = (2, 3, 4) if tier == "quick" else (2, 3, 4, 5, 6)
+    for n in ns:
+        depths = [2 + (k * 2 + n) % 3 for k in range(n)]
+        for t in range(n):
+            for c in [None] + list(range(n)):
+                for od in sorted({0, depths[t] - 1, depths[t] // 2}):
+                    yield mk(depths, {}, t, od, c, "slice")
+                    yield mk(depths, {t: od}, t, od, c, "gen")
+        for c in [None] + list(range(n)):
+            yield mk(depths, {}, None, 0, c, "slice")
+    for _ in range(40 if tier == "quick" else 600):
+        n = rng.randrange(2, 7)
+        depths = [rng.randrange(1, 5) for _ in range(n)]
+        t = rng.randrange(n)
+        od = rng.randrange(depths[t])
+        via = rng.choice(["slice", "gen"])
+        gens = {k: rng.randrange(depths[k]) for k in range(n) if rng.random() < 0.3}
+        if via == "gen":
+            gens[t] = od
+        yield mk(depths, gens, t, od, rng.choice([None] + list(range(n))), via)
+
+
 # ======================================================================= module API
 def make_inputs(tier, seed):
     rng = random.Random(seed * 7919 + 7)
     yield from life_inputs(tier, rng)
+    yield from search_inputs(tier, rng)
     yield from snap_inputs(tier, rng)
 
 
 def run_case(desc):
+    if desc["_kind"] == "search":
+        return run_search(desc)
     return run_snap(desc) if desc["_kind"] == "snap" else run_life(desc)
 
 
 def coq_case(desc, obs):
     if desc["_kind"] == "snap":
         return coq_snap(desc, obs)
+    if desc["_kind"] == "search":
+        return coq_search(desc, obs)
     if obs["res"] == "raised":
         return None
     return coq_life(desc, obs)
 
 
 def direct_oracle(desc, obs):
+    if desc["_kind"] == "search":
+        return oracle_search(desc, obs)
     return oracle_snap(desc, obs) if desc["_kind"] == "snap" else oracle_life(desc, obs)
 
 
 def classify(desc, obs):
+    if desc["_kind"] == "search":
+        if obs["res"] != "ok":
+            return ["search:raised"]
+        pos = [k for k, _ in obs["order"]]
+        rel = "caller=harness(oldest)" if obs["me"] == "H" else (
+            "target=caller" if desc["target"] == obs["me"] else
+            ("nowhere" if desc["target"] is None else
+             ("target listed AFTER caller" if pos.index(desc["target"]) > pos.index(obs["me"]) else "target listed before caller")))
+        return ["search:" + rel, "search:via=" + desc["via"], "search:error" if obs["error"] else "search:found"]
     if desc["_kind"] == "snap":
         cls = {0: "ok", 1: "assert", 2: "runtime", 3: "other"}[obs["cls"]]
         return ["snap:%s" % cls, "snap:retries=%d" % min(obs["retries"], 10), "snap:moves=%d" % min(len(desc["sched"]), 5),
